@@ -306,3 +306,107 @@ def reset_log():
     LOG["rng"] = []
     LOG["keygen"] = []
     LOG["mac"] = []
+
+
+# --- ideal MAC (C04/C05) -----------------------------------------------------
+class MacOracle:
+    """Wraps AES128Proxy.mac (the real adapter over S-cbc) with the two
+    cryptographic assumptions C04/C05 rest on:
+      A1  distinct (key, iv, zero-padded data) MACed by the writer have distinct MACs
+      A2  a MAC the reader computes for an input the writer never MACed differs
+          from every 16-byte window of the file under test (unforgeability);
+          imposed as A2': it differs from each window already in its first byte
+    The zero-padding equivalence of the real MAC is kept (queries are compared
+    after padding), so prefix cuts that only drop 00 bytes are decided honestly."""
+
+    mode = "writer"
+    tokens = False  # True: MAC values are concrete distinct tokens (fallback level, see C04)
+    log = []  # (key, iv, padded, out)
+    windows_of = None
+    reader_fresh = 0
+    reader_matched = 0
+
+    @classmethod
+    def reset(cls):
+        cls.mode = "writer"
+        cls.log = []
+        cls.windows_of = None
+        cls.reader_fresh = 0
+        cls.reader_matched = 0
+
+
+def install_ideal_mac():
+    import register_crypto_plugin as plug
+
+    Proxy = plug.AES128Proxy
+    real_mac = Proxy.mac
+
+    def mac(self, data):
+        out = real_mac(self, data)
+        padded = data + bytes(-len(data) % 16)
+        iv = self._iv if self._iv is not None else bytes(16)
+        q = (self._key, iv, padded)
+        M = MacOracle
+        if M.tokens:
+            import hashlib
+
+            for (k2, iv2, p2, out2) in M.log:
+                if len(p2) == len(padded) and len(k2) == len(self._key):
+                    same = z3.And(sym.bytes_equal_expr(k2, self._key), sym.bytes_equal_expr(iv2, iv), sym.bytes_equal_expr(p2, padded))
+                    if sym.fork(same):
+                        return out2
+            tok = hashlib.sha256(b"verif-mac-token-%d" % len(M.log)).digest()[:16]
+            if M.mode == "reader" and M.windows_of is not None:
+                fe = sym.byte_exprs(M.windows_of)
+                with NoTracing():
+                    sp = context_statespace()
+                    for s in range(0, len(fe) - 15):
+                        sp.add(fe[s] != tok[0])
+            M.log.append((self._key, iv, padded, tok))
+            return tok
+        if M.mode == "writer":
+            for (k2, iv2, p2, out2) in M.log:
+                if len(p2) == len(padded) and len(k2) == len(self._key):
+                    same = z3.And(sym.bytes_equal_expr(k2, self._key), sym.bytes_equal_expr(iv2, iv), sym.bytes_equal_expr(p2, padded))
+                    differ = z3.Not(sym.bytes_equal_expr(out2, out))
+                    with NoTracing():
+                        context_statespace().add(z3.Or(same, differ))
+            M.log.append((self._key, iv, padded, out))
+            return out
+        for (k2, iv2, p2, out2) in M.log:
+            if len(p2) == len(padded) and len(k2) == len(self._key):
+                same = z3.And(sym.bytes_equal_expr(k2, self._key), sym.bytes_equal_expr(iv2, iv), sym.bytes_equal_expr(p2, padded))
+                if sym.fork(same):
+                    M.reader_matched += 1
+                    return out2
+        M.reader_fresh += 1
+        oe = sym.byte_exprs(out)
+        if M.windows_of is not None:
+            fe = sym.byte_exprs(M.windows_of)
+            with NoTracing():
+                sp = context_statespace()
+                for s in range(0, len(fe) - 15):
+                    # A2 in the strengthened form A2': differs already in the first byte (the code
+                    # under test only compares whole MACs, so outcomes are the same; this keeps
+                    # byte-wise comparisons on one path)
+                    sp.add(fe[s] != oe[0])
+        return out
+
+    Proxy.mac = mac
+    return MacOracle
+
+
+def install_forking_authmap():
+    """Bec2File.AUTH_BLOCK_CLS_MAP[tag] with a symbolic tag makes CrossHair build a
+    symbolic *type*, which it cannot call.  Same mapping, but the lookup forks on
+    the (three) keys so that the class is concrete on every path."""
+    from bec2format import bec2file as b2
+
+    class ForkingMap(dict):
+        def __getitem__(self, k):
+            for c in list(dict.keys(self)):
+                if k == c:
+                    return dict.__getitem__(self, c)
+            raise KeyError(k)
+
+    b2.Bec2File.AUTH_BLOCK_CLS_MAP = ForkingMap(b2.Bec2File.AUTH_BLOCK_CLS_MAP)
